@@ -136,6 +136,15 @@ class MockCA:
             "order_ident_order": None,    # "reversed": the order object lists the identifiers in reverse
             "order_ident_ip": None,       # "exploded": IPv6 identifiers of the order object fully written out
             "url_decor": "",              # text appended to every object URL the CA hands out (e.g. "?x=1&y=%2F")
+            "same_leaf": None,            # a REPEATED order (same CSR public key, same names) gets the certificate issued for
+                                          # the first one again (a duplicate request is not issued twice): "leaf" = that
+                                          # end-entity certificate followed by the upper certificates made for THIS order
+                                          # (other intermediates, `chain_len` of this order: the old leaf's signature then does
+                                          # not chain to them — no concern of a client that stores what it is served);
+                                          # "chain" = the upper certificates of the earlier orders too, as far as `chain_len`
+                                          # of this order goes (more are made when it asks for more): with the same `chain_len`,
+                                          # `chain_sep` and `chain_form` the body is byte-identical; a list: one per issuance
+                                          # (`chain_sep` may be a list as well)
         }
         if opts:
             self.o.update(opts)
@@ -152,6 +161,8 @@ class MockCA:
         self.authzs = {}
         self.challs = {}
         self.certs = {}
+        self.leaf_cache = {}    # (CSR public key, names) -> PEM blocks served for the first such order (`same_leaf`)
+        self.leaf_reuse = []    # per issuance: None | {"mode", "reused": bool, "blocks_kept": n}
         self.kind_count = {}
         self.obj_ctr = 0
         self.forget_accounts = False
@@ -756,13 +767,13 @@ class MockCA:
                 if "pem" in r:
                     self.obj_ctr += 1
                     cid = str(self.obj_ctr)
-                    pem = r["pem"]
+                    pem = self.same_leaf(od["csr"], r["pem"], pick(o.get("same_leaf")))
                     if o.get("chain_order") == "reversed":
                         # the issuing certificates FIRST, the end-entity certificate last (RFC 8555 §9.1
                         # demands the end-entity certificate first: a client must not install this)
                         blocks = [b + "-----END CERTIFICATE-----\n" for b in pem.split("-----END CERTIFICATE-----\n") if b.strip()]
                         pem = "".join(reversed(blocks))
-                    self.certs[cid] = pem.replace("-----\n-----BEGIN", "-----\n" + o["chain_sep"] + "-----BEGIN") + o.get("chain_tail", "")
+                    self.certs[cid] = pem.replace("-----\n-----BEGIN", "-----\n" + pick(o["chain_sep"]) + "-----BEGIN") + o.get("chain_tail", "")
                     self.certs[cid] = chain_form(self.certs[cid], pick(o.get("chain_form")))
                     od["cert"] = self.url("/cert/" + cid)
                     od["status"] = "valid"
@@ -771,6 +782,27 @@ class MockCA:
                     od["error"] = {"type": ERR + "badCSR", "detail": str(r.get("err"))}
             else:
                 od["polls_valid"] += 1
+
+    def same_leaf(self, csr_b64, pem, mode):
+        """Option `same_leaf`: the chain to serve for this order, given the chain just made for it."""
+        if not mode:
+            self.leaf_reuse.append(None)
+            return pem
+        c = self.h.call({"op": "parse_csr", "csr_b64": csr_b64})
+        key = (c.get("pub_der_hex"), tuple(sorted(c.get("dns") or [])), tuple(sorted(c.get("ip_hex") or [])))
+        end = "-----END CERTIFICATE-----\n"
+        blocks = [b + end for b in pem.split(end) if b.strip()]
+        old = self.leaf_cache.get(key)
+        if old is None or key[0] is None:
+            self.leaf_cache[key] = blocks
+            self.leaf_reuse.append({"mode": mode, "reused": False, "blocks_kept": 0})
+            return pem
+        keep = 1 if mode == "leaf" else min(len(old), len(blocks))
+        blocks[:keep] = old[:keep]
+        if mode != "leaf" and len(blocks) > len(old):
+            self.leaf_cache[key] = list(blocks)
+        self.leaf_reuse.append({"mode": mode, "reused": True, "blocks_kept": keep})
+        return "".join(blocks)
 
     def order_body(self, oid):
         od = self.orders[oid]
